@@ -15,7 +15,7 @@ Definition eligible (s : clp_state) (l : lprov) : bool :=
 (* CalculateRewardShareForLiquidityProviders + CalculateRewardAmountForLiquidityProviders *)
 Definition reward_amounts (units : list Z) (bucket : Z) : Outcome (list Z) :=
   let total := fold_left Z.add units 0 in
-  if total =? 0 then Panic      (* Dec.Quo by zero *)
+  if total =? 0 then Ok (map (fun _ => 0) units)      (* providers without units share nothing (after the fix of finding F-12; before it: Dec.Quo by zero) *)
   else Ok (map (fun u => dec_trunc_int (dec_mul_int (dec_quo (dec_of_int u) (dec_of_int total)) bucket)) units).
 
 (* SubtractFromRewardsBucket *)
